@@ -280,3 +280,22 @@ func JoinsStaleBuffer(rows [][]string, skip func(string) bool) []string {
 	}
 	return out
 }
+
+type listEntry struct {
+	Level int
+	Text  string
+}
+
+// CarriesIndent violates R15.7 INDENT-FROM-OWN-LEVEL: the indentation is only ever widened.
+func CarriesIndent(items []listEntry, sb *strings.Builder) {
+	indent := ""
+	last := 0
+	for _, it := range items {
+		if it.Level > last {
+			indent = strings.Repeat("  ", it.Level)
+		}
+		last = it.Level
+		sb.WriteString(indent)
+		sb.WriteString(it.Text)
+	}
+}
